@@ -16,16 +16,43 @@
 (* Modes (IOEnv.MODE): "mc" explores the machines over the batch and emits, per          *)
 (* (instance, machine), the exact result the code must produce; "judge" reads policies   *)
 (* returned by the real planners and evaluates them exactly (pipeline B, one Plan event).*)
-EXTENDS MDP, Json, IOUtils
+EXTENDS MDP, Json, IOUtils, SequencesExt
 
-Batch == JsonDeserialize(IOEnv.BATCH_FILE)
 Mode  == IOEnv.MODE
+
+\* ------------------------------------------------------------------ exhaustive small family (mode "family")
+\* all MDPs with two non-absorbing states 1, 2 and one explicitly absorbing state 3, two actions, every
+\* transition row a composition of 2 over the three states, rewards per (state, action) from a menu,
+\* state 2 with one or two available actions; discount 1/2 (rewards -1..1) or 1 (rewards -2..0).
+FamRows == <<<<2,0,0>>, <<0,2,0>>, <<0,0,2>>, <<1,1,0>>, <<1,0,1>>, <<0,1,1>>>>
+FamOne  == IOEnv.FAMGAMMA = "one"
+FamRew  == IF FamOne THEN <<-2, -1, 0>> ELSE <<-1, 0, 1>>
+FamInst(r11, r12, r21, r22, w11, w12, w21, w22, av2) ==
+  [N |-> 3, K |-> 2, PD |-> 2, GN |-> 1, GD |-> IF FamOne THEN 1 ELSE 2, ID |-> 2,
+   abs |-> <<0, 0, 1>>, avail |-> <<<<1, 1>>, <<1, av2>>, <<1, 0>>>>,
+   P |-> <<<<r11, r12>>, <<r21, r22>>, <<<<2,0,0>>, <<0,2,0>>>>>>,
+   R |-> <<<<<<w11,w11,w11>>, <<w12,w12,w12>>>>, <<<<w21,w21,w21>>, <<w22,w22,w22>>>>, <<<<-1,-1,-1>>, <<1,1,1>>>>>>,
+   p0 |-> <<1, 1, 0>>, EN |-> 1, ED |-> 16, CAP |-> 8, PICAP |-> 100000, explicit |-> 1,
+   algs |-> <<"oracle", "vec", "dict", "pi">>]
+\* the i-th member (0-based mixed-radix decoding: four rows base 6, four rewards base 3, one bit)
+FamSize == 6 * 6 * 6 * 6 * 3 * 3 * 3 * 3 * 2
+FamDecode(i) ==
+  LET d(k, b) == (i \div k) % b IN
+  FamInst(FamRows[d(1, 6) + 1], FamRows[d(6, 6) + 1], FamRows[d(36, 6) + 1], FamRows[d(216, 6) + 1],
+          FamRew[d(1296, 3) + 1], FamRew[d(3888, 3) + 1], FamRew[d(11664, 3) + 1], FamRew[d(34992, 3) + 1],
+          d(104976, 2))
+FamMod == atoi(IOEnv.FAMMOD)
+FamRem == atoi(IOEnv.FAMREM)
+
+Batch == IF Mode = "family" THEN <<>> ELSE JsonDeserialize(IOEnv.BATCH_FILE)
+Inst(i) == IF Mode = "family" THEN FamDecode(i - 1) ELSE Batch[i]
+Slice == IF Mode = "family" THEN {i \in 1..FamSize : i % FamMod = FamRem} ELSE 1..Len(Batch)
 \* residual EN/ED and iteration cap CAP are per-instance fields of the batch record
 
 VARIABLES iid, alg, phase, k, V, Q, sup, opt
 vars == <<iid, alg, phase, k, V, Q, sup, opt>>
 
-M == Batch[iid]
+M == Inst(iid)
 Eps(m) == <<m.EN, m.ED>>
 \* the state list the planner works on: given explicitly (all states) or inferred by reachability
 Lst(m) == IF m.explicit = 1 THEN St(m) ELSE Reach(m)
@@ -58,14 +85,14 @@ Oracle(m) ==
 
 \* ------------------------------------------------------------------ machine
 Init ==
-  /\ iid \in 1..Len(Batch)
-  /\ alg \in (IF Mode = "mc" THEN Range(Batch[iid].algs) ELSE {"judge"})
+  /\ iid \in Slice
+  /\ alg \in (IF Mode = "judge" THEN {"judge"} ELSE Range(Inst(iid).algs))
   /\ phase = "run"
   /\ k = 0
-  /\ V = Zero(Batch[iid])
-  /\ Q = QTable(Batch[iid], Zero(Batch[iid]))
-  /\ sup = [s \in St(Batch[iid]) |-> Avail(Batch[iid], s)]
-  /\ opt = IF alg = "pi" \/ alg = "judge" THEN <<>> ELSE Oracle(Batch[iid])
+  /\ V = Zero(Inst(iid))
+  /\ Q = QTable(Inst(iid), Zero(Inst(iid)))
+  /\ sup = [s \in St(Inst(iid)) |-> Avail(Inst(iid), s)]
+  /\ opt = IF alg = "pi" \/ alg = "judge" THEN <<>> ELSE Oracle(Inst(iid))
 
 \* for i in range(CAP): q = Q(V); V1 = max q; if close: break; V = V1      -> returns V, q, i
 VecSweep ==
@@ -125,14 +152,25 @@ JudgeRecord(m) ==
   LET sp == [s \in NonAbs(m) |-> {a \in Ac(m) : m.pol[s][a] = 1}]
       w  == UniformW(m, sp)
       pv == PolicyValue(m, w, 6)
+      cr == CannotReach(m)
+      \* the same policy with the rows of the cannot-reach states replaced by optimal actions: tells
+      \* whether a sub-optimal return is attributable to those rows alone (signature of a known finding)
+      fixed == IF cr = {} THEN <<>> ELSE
+               LET vs == OptimalValue(m)
+                   qs == OptimalQ(m, vs)
+                   sp2 == [s \in NonAbs(m) |-> IF s \in cr
+                             THEN {a \in Avail(m, s) : REq(qs[s][a], vs[s])} ELSE sp[s]]
+               IN InitialValue(m, PolicyValue(m, UniformW(m, sp2), 6))
   IN [iid |-> iid, tag |-> m.tag, kind |-> "judge", pv |-> pv, pinit |-> InitialValue(m, pv),
+      pfix |-> IF cr = {} THEN InitialValue(m, pv) ELSE fixed,
       steps |-> StepsValue(m, w, 6)]
 Emit ==
   phase # "run" =>
     IF alg = "oracle" THEN
       PrintT(ToJson([iid |-> iid, kind |-> "oracle", v |-> opt.v, q |-> opt.q, cannot |-> opt.cannot,
                      absall |-> opt.absall, neginf |-> opt.neginf, leaks |-> opt.leaks,
-                     vinit |-> InitialValue(M, opt.v)]))
+                     vinit |-> InitialValue(M, opt.v),
+                     inst |-> IF Mode = "family" THEN M ELSE <<>>]))
     ELSE IF alg = "judge" THEN PrintT(ToJson(JudgeRecord(M)))
     ELSE PrintT(ToJson([iid |-> iid, kind |-> alg, phase |-> phase, its |-> k, v |-> V, q |-> Q,
                         sup |-> sup]))
